@@ -113,15 +113,22 @@ def run_case(c, wd, idx):
         refs = [copy.deepcopy(s) for s in samplers]
         files = [os.path.join(wd, f"par_{idx}_{i}.h5") for i in range(n)]
         ctrl = S.ParallelSampleSMP(seed=1)
+        # a machine with fewer cores than chains (what os.cpu_count() reports is all the library can know about it)
+        real_count = os.cpu_count
+        if c.get("cores") is not None:
+            os.cpu_count = lambda: c["cores"]
         try:
             with alarm(180):
                 extra = {} if c.get("exchange_interval") is None else {"exchange_interval": c["exchange_interval"]}
                 ctrl.sample(samplers, files, posteriors, overwrite_existing_files=True, proposals=c["P"], exchange=False,
                             initial_model=copy.deepcopy(im), kwargs=copy.deepcopy(kw), **extra)
         except Watchdog:
+            os.cpu_count = real_count
             return [("parallel-hang", f"ParallelSampleSMP without exchange did not finish within 180 s ({c['n']} chains)")]
         except Exception as e:  # noqa
+            os.cpu_count = real_count
             return [("parallel-raised", f"ParallelSampleSMP.sample raised {type(e).__name__}: {e}")]
+        os.cpu_count = real_count
         after = [snapshot(s) for s in samplers]
         for i in range(n):
             if before[i] != after[i]:
@@ -179,6 +186,14 @@ def run(tier, seed):
                     while len(c[key]) < c["n"]:
                         c[key].append(copy.deepcopy(c[key][0]))
                 c["kws"][1] = dict(c["kws"][1], stepsize=0.9)
+            if i == 3 or i % 9 == 7:
+                # more chains than cores, and not a multiple of them: five chains on a machine that reports two cores
+                while len(c["kinds"]) < 5:
+                    for key in ("kinds", "seeds", "ims", "kws", "means"):
+                        c[key].append(copy.deepcopy(c[key][len(c[key]) % c["n"]]))
+                c["n"], c["cores"] = 5, 2
+                c["seeds"] = [s + 17 * j for j, s in enumerate(c["seeds"])]
+                dist["more_chains_than_cores"] = dist.get("more_chains_than_cores", 0) + 1
             if i == 2:
                 c["im_mode"] = "in-kwargs"
                 if c["kw_mode"] == "none":
